@@ -563,3 +563,108 @@ def option_forwarding(ctx, chk, rule, options, S=None):
     if not bad:
         chk.ok(rule, '<Container>', f'{n_sites} forwarding site(s) of {sorted(options)}', detail='every wrapper passes the option on as its own parameter', evals=max(n_sites, 1))
     return n_sites
+
+
+def no_memoised_configuration(ctx, chk, rule, S=None):
+    """The configuration accessors (hash type, prefix length, compression algorithm, pack size target) and whatever they call are not memoised by a
+    decorator: a handle that is re-initialised in place (init_container(clear=True)) must see the new configuration."""
+    S = S or Summaries(ctx)
+    memo = memoised_external_readers(ctx, S)
+    cont = ctx.kinds.container
+    bad = [(f, d) for f, d in memo if f.cls is cont or f.module is cont.module]
+    # also decorators on the accessors themselves even if they only read the cached dict
+    for name in ('hash_type', 'loose_prefix_len', 'pack_size_target', 'compression_algorithm', 'container_id', '_get_repository_config'):
+        f = cont.methods.get(name)
+        if f is None:
+            continue
+        for d in f.node.decorator_list:
+            base = d.func if isinstance(d, ast.Call) else d
+            if norm(base).split('.')[-1] in CACHE_DECORATORS and (f, norm(d)) not in bad:
+                bad.append((f, norm(d)))
+    for f, d in bad:
+        chk.bad(rule, f.qualname, f'@{d}', 'a configuration accessor is memoised: after init_container(clear=True) with other settings the same handle keeps hashing / naming / compressing with the old '
+                'configuration, so keys and file names no longer match what config.json declares', where=f'{f.module.relpath}:{f.lineno}')
+    if not bad:
+        chk.ok(rule, cont.qualname, 'configuration accessors', detail='plain properties over the configuration dict that init_container(clear) resets', nontrivial=False)
+
+
+class SessionStableMachine:
+    """A local that holds the operation session must not be used after the cached session was reset (closed and dropped) -- e.g. by a helper called in
+    between: the statements would go to a closed session object while the handle's cache already holds another one, whose snapshot predates them.
+    State = (live, stale): (frame id, name) pairs."""
+    rule = 'RULE'
+    edge_kinds = ('n',)
+
+    def __init__(self, ctx, rule):
+        self.K, self.E = ctx.kinds, ctx.effects
+        self.rule = rule
+        self.binds = 0
+        self.resets = 0
+
+    def initial(self, g):
+        return [(frozenset(), frozenset())]
+
+    def edge_ok(self, edge, state, node, g):
+        return True
+
+    def edge_state(self, edge, state, node, g):
+        return state
+
+    def at_exit(self, node, state, g):
+        return []
+
+    def transfer(self, node, st, g):
+        from ..solver import Violation
+        live, stale = st
+        viol = []
+        a = node.ast
+        if node.kind == 'stmt' and isinstance(a, (ast.Assign, ast.AnnAssign)):
+            tgt = a.targets[0] if isinstance(a, ast.Assign) and len(a.targets) == 1 else getattr(a, 'target', None)
+            if isinstance(tgt, ast.Name):
+                key = (node.frame.id, tgt.id)
+                v = a.value
+                if isinstance(v, ast.Call) and norm(v.func).endswith('_get_operation_session'):
+                    live = live | {key}
+                    stale = stale - {key}
+                    self.binds += 1
+                else:
+                    live, stale = live - {key}, stale - {key}
+        for e in self.E.of(node):
+            if e[0] == 'SESSION_RESET' and e[1] == 'op':
+                self.resets += 1
+                stale = stale | live
+                live = frozenset()
+        if node.kind == 'call' and node.callee is not None and node.callee.kind == 'method' and isinstance(node.callee.recv, ast.Name) \
+                and node.callee.name in ('execute', 'scalar', 'scalars', 'commit', 'bulk_update_mappings', 'bulk_insert_mappings', 'add', 'add_all', 'delete', 'flush'):
+            key = (node.frame.id, node.callee.recv.id)
+            if key in stale:
+                viol.append(Violation(self.rule, node, st, f'`{node.callee.recv.id}` was obtained before the cached operation session was reset (closed) and is used again afterwards: these statements run on a '
+                                      'closed session object while the handle already caches a new one whose snapshot predates them -- later reads through the handle miss these writes, later writes hit "database is locked"'))
+        return [(live, stale)] + viol
+
+
+def session_stability(ctx, chk, rule, entries=None):
+    from ..cfg import Policy
+    from ..solver import run as solve
+    K = ctx.kinds
+    cont = K.container
+    S = Summaries(ctx)
+    n = 0
+    bad = False
+    for name, f in sorted(cont.methods.items()):
+        if f.is_overload or (entries is not None and f.qualname not in entries):
+            continue
+        own = {e[0] for nn, cal, effs in S.calls(f) for e in effs}
+        if not own & {'DB_QUERY', 'DB_INSERT', 'DB_UPDATE', 'DB_DELETE', 'DB_COMMIT'}:
+            continue
+        g = ctx.icfg(f.qualname, {}, Policy(depth=3, stop={'container:Container._get_objects_stream_meta_generator'} if f.name != '_get_objects_stream_meta_generator' else ()), key='sess3')
+        m = SessionStableMachine(ctx, rule)
+        viols, st = solve(g, m)
+        chk.crash_points += st['pairs']
+        n += 1
+        for v in viols:
+            bad = True
+            chk.bad(rule, f.qualname, v.node.text(100), v.msg, where=v.node.where, witness=v.witness)
+    chk.require(n >= 6, f'expected >= 6 Container methods that use the operation session, found {n}')
+    if not bad:
+        chk.ok(rule, cont.qualname, f'{n} method(s) using the operation session', detail='no use of a session local after the cached session was reset (helpers called in between included, inlined to depth 3)', evals=n)
